@@ -1,6 +1,6 @@
 use crate::coherence::CoherenceError;
 use crate::ext::GoalExt;
-use crate::solve::Solver;
+use crate::solve::{Solution, Solver};
 use crate::RustIrDatabase;
 use chalk_ir::cast::*;
 use chalk_ir::interner::Interner;
@@ -32,7 +32,12 @@ pub fn perform_orphan_check<I: Interner>(
         .cast(db.interner());
 
     let canonical_goal = &impl_allowed.into_closed_goal(db.interner());
-    let is_allowed = solver.solve(db, canonical_goal).is_some();
+    // Only a definite answer proves that the impl is allowed: an ambiguous one
+    // (e.g. because the goal exceeds the solver's size limit) does not.
+    let is_allowed = matches!(
+        solver.solve(db, canonical_goal),
+        Some(Solution::Unique(_))
+    );
     debug!("overlaps = {:?}", is_allowed);
 
     if !is_allowed {
